@@ -83,6 +83,7 @@ type Exec struct {
 	freshCtx int
 	curSkolems []Term
 	assertsHit map[string]bool
+	pkgInitOf string
 	qscript  []qline
 	qmu      sync.Mutex
 }
@@ -209,8 +210,14 @@ func (ex *Exec) oblige(st *State, kind, name string, goal Term, tags []string, p
 	}
 
 	ex.obls = append(ex.obls, o)
-	// assert-then-assume
-	ex.assume(st.pc, goal)
+	// assert-then-assume; a goal proved for arbitrary skolem constants is assumed universally
+	ag := goal
+	for _, sk := range o.Skolems {
+		ex.ctr++
+		bn := fmt.Sprintf("%s.b%d", sk.S, ex.ctr)
+		ag = Term{S: fmt.Sprintf("(forall ((%s %s)) %s)", bn, sk.Sort.String(), replaceToken(ag.S, sk.S, bn)), Sort: BoolSort}
+	}
+	ex.assume(st.pc, ag)
 }
 
 func (ex *Exec) newObj(name string, t types.Type) *Obj {
